@@ -153,6 +153,7 @@ class Check(Property):
     ID = "C07"
     PROPS_FILE = "PintModel/Props/C07.lean"
     MODULE = "PintModel.Props.C07"
+    EXTRA_LEAN_FILES = ["PintModel/Proofs/EvalTreeLemmas.lean"]
     RULE = ("expression trees over numbers, variables and unit names with + - * / // % ** ^, unary minus and "
             "juxtaposition, rendered with minimal parentheses under Python's precedence in several spelling "
             "variants (spaced, tight, caret, redundant parentheses); quick: all trees with <= 3 leaves over 4 "
